@@ -545,9 +545,11 @@ func valueSources(info *types.Info, body ast.Node, e ast.Expr, depth int) []ast.
 		}
 		seen[v] = true
 		es := eng.AssignedExprs(info, body, v)
-		if len(es) == 0 && !isDeclaredIn(info, body, v) {
-			out = append(out, e) // a parameter or captured variable
-			return
+		if !isDeclaredIn(info, body, v) {
+			out = append(out, e) // a parameter or captured variable: its incoming value
+			if len(es) == 0 {
+				return
+			}
 		}
 		for _, x := range es {
 			rec(x, d-1)
